@@ -628,6 +628,20 @@ class Inliner:
         return None
 
     # ------------------------------------------------------------------------------------------- expression mode
+    def _module_attr(self, a: ast.expr) -> bool:
+        """`zlib.decompressobj`: an attribute chain on a name this module binds by `import` (and no function re-binds): as good as a constant"""
+        x = a
+        while isinstance(x, ast.Attribute):
+            x = x.value
+        if not (isinstance(a, ast.Attribute) and isinstance(x, ast.Name)):
+            return False
+        b = self.mine.get(x.id)
+        if b is None or b[0] != "ext":
+            return False
+        if self.cur_fn is not None and any(isinstance(n, ast.Name) and n.id == x.id and isinstance(n.ctx, (ast.Store, ast.Del)) for n in ast.walk(self.cur_fn)):
+            return False
+        return True
+
     def _expr_mode(self, call: ast.Call) -> Optional[ast.expr]:
         cal = self._callee(call)
         if cal is None:
@@ -642,7 +656,7 @@ class Inliner:
         stores = {x.id for x in ast.walk(e) if isinstance(x, ast.Name) and isinstance(x.ctx, ast.Store)}
         if stores:
             return None
-        impure = [p for p, a in got.items() if not isinstance(a, (ast.Name, ast.Constant))]
+        impure = [p for p, a in got.items() if not isinstance(a, (ast.Name, ast.Constant)) and not self._module_attr(a)]
         # (attribute / subscript arguments count as impure here: E may evaluate something in between that changes what they read)
         if impure:
             # exact only when there is a single impure argument, used exactly once, and it is the first thing E evaluates
@@ -749,7 +763,7 @@ class Inliner:
         pre: List[ast.stmt] = []
         for p in params:
             a = got[p]
-            if isinstance(a, (ast.Name, ast.Constant)) and p not in assigned:
+            if (isinstance(a, (ast.Name, ast.Constant)) or self._module_attr(a)) and p not in assigned:
                 mapping[p] = a  # a caller's local cannot be re-bound by the spliced body (its own locals are renamed apart)
             elif _pure(a) and p not in assigned and _quiet(fn):
                 mapping[p] = a  # the body stores nothing and calls nothing that could change what the attribute chain reads
